@@ -364,9 +364,43 @@ def eval_interchange(ctx, case):
         ctx.violation(f"interchange:{what}", "':' style and '---' style of the same options differ", case, {"colon": res[0], "dash": res[1], "colon_text": colon, "dash_text": dash})
 
 
+def eval_e2e(ctx, case):
+    """End to end: a plain fence named in fence_as_directive receives its block attributes ({.cls #id k=v}) as
+    externally supplied defaults; options written in the fence body take priority over them."""
+    from docutils import nodes
+
+    from .. import drive
+
+    attrs, block = case["attrs"], case["block"]
+    a = " ".join(([f".{attrs['class']}"] if "class" in attrs else []) + ([f"#{attrs['id']}"] if "id" in attrs else []))
+    lines = ([f"{{{a}}}"] if a else []) + ["```note"] + [f":{k}: {v}" for k, v in block.items()] + (["", "body text"]) + ["```"]
+    text = "\n".join(lines) + "\n"
+    try:
+        doc, w = drive.parse_pre(text, myst_enable_extensions=["attrs_block"], myst_fence_as_directive=["note"])
+    except Exception as e:  # noqa: BLE001
+        ctx.violation(f"e2e:raises:{type(e).__name__}", f"{e!r}", case, {"text": text})
+        return
+    adm = next(iter(doc.findall(nodes.note)), None)
+    ctx.count("e2e_fence_as_directive")
+    if adm is None:
+        ctx.violation("e2e:fence-not-run-as-directive", "a fence named in fence_as_directive did not produce the directive's node", case, {"text": text, "doctree": doc.pformat()[:800]})
+        return
+    exp_classes = [block["class"]] if "class" in block else ([attrs["class"]] if "class" in attrs else [])
+    exp_name = block.get("name", attrs.get("id"))
+    got_classes = [c for c in adm.get("classes", [])]
+    got_names = adm.get("names", [])
+    if got_classes != exp_classes or got_names != ([exp_name.lower()] if exp_name else []):
+        key = "options:priority-over-additional" if ("class" in block and "class" in attrs) or ("name" in block and "id" in attrs) else "e2e:fence-attributes-not-passed"
+        ctx.violation(key, f"fence attributes {attrs} + block options {block}: node has classes {got_classes} names {got_names}; expected classes {exp_classes} name {exp_name}", case, {"text": text, "warnings": w})
+    if "body text" not in adm.astext():
+        ctx.violation("e2e:body-lost", "the fence body was not rendered inside the directive", case, {"text": text})
+
+
 def eval_case(ctx, case):
     if case["kind"] == "interchange":
         eval_interchange(ctx, case)
+    elif case["kind"] == "e2e":
+        eval_e2e(ctx, case)
     else:
         eval_split(ctx, case)
 
@@ -446,6 +480,15 @@ def run_shard(ctx):
             ctx.sample(case)
         if (i & 0xFF) == 0 and ctx.out_of_time():
             break
+    # 2b. fence_as_directive end to end (attribute block -> additional options), all combinations
+    if ctx.shard == 0:
+        for ac in (None, "ca"):
+            for ai in (None, "ida"):
+                for bc in (None, "cb"):
+                    for bn in (None, "nb"):
+                        case = {"kind": "e2e", "attrs": {**({"class": ac} if ac else {}), **({"id": ai} if ai else {})}, "block": {**({"class": bc} if bc else {}), **({"name": bn} if bn else {})}}
+                        eval_e2e(ctx, case)
+                        ctx.case(("e2e", repr(case)), True)
     # 3. interchange pairs
     n_i = 1500 if quick else 50000
     for i in range(n_i):
@@ -465,7 +508,7 @@ def run_shard(ctx):
 
 def finalize(m, tier):
     c = m["counters"]
-    for k, lo in (("splits_compared", 10000), ("offset_checked", 1000), ("with_option_block", 1000), ("interchange_pairs", 500), ("with_additional_options", 100), ("programs", 60), ("arg_errors", 10), ("first_line_merged", 10)):
+    for k, lo in (("splits_compared", 10000), ("offset_checked", 1000), ("with_option_block", 1000), ("interchange_pairs", 500), ("with_additional_options", 100), ("programs", 60), ("arg_errors", 10), ("first_line_merged", 10), ("e2e_fence_as_directive", 16)):
         if c.get(k, 0) < lo:
             m["inconclusive"].append(f"monitor observed only {c.get(k, 0)} '{k}' events (< {lo})")
     if c.get("model_failed", 0) > 0.05 * max(1, c.get("splits_compared", 0)):
